@@ -246,6 +246,57 @@ def accepted(runs, limit=200000):
     return out
 
 
+# ---------------------------------------------------------------- how from_string splits its text
+class _Captured(Exception):
+    def __init__(self, host, port):
+        super().__init__()
+        self.parts = (host, port)
+
+
+def split_observe(util, text):
+    """(host part, port part) that `NetAddress.from_string(text)` hands to the constructor, seen
+    through the public API: a subclass whose __init__ records its arguments.  Falls back to the
+    module's splitter by name when from_string does not construct through `cls`; None when neither
+    shows it."""
+    probe = getattr(util, '_c18_split_probe', None)
+    if probe is None:
+        def __init__(self, host, port):
+            raise _Captured(host, port)
+        probe = type('SplitProbe', (util.NetAddress,), {'__init__': __init__})
+        util._c18_split_probe = probe
+    try:
+        probe.from_string(text)
+    except _Captured as c:
+        return c.parts
+    except Exception:       # noqa: BLE001
+        return None
+    f = getattr(util, '_split_address', None)
+    if f is not None:
+        try:
+            return f(text)
+        except Exception:   # noqa: BLE001
+            return None
+    return None
+
+
+SPLIT_ALPHABET = ['a', '1', '.', ':', '[', ']', '%', '/']
+SPLIT_EXTRA = ['[a]:1', '[::1]:80', '[a]b]:5', '[a]b', '[a]:', '[]:1', '[a]]:1', 'a:b:c', '[a:b]:c:d', '[[a]]:1',
+               'ex.com:80', '[fe80::1%]]:80', '[', ']', '[]', ']:1[']
+
+
+def split_table(util):
+    """the split of every string over the 8-symbol alphabet up to length 3 and of a few longer ones:
+    [[text, host part, port part], ...] (rows the code does not let us observe are left out)"""
+    import itertools
+    rows = []
+    texts = [''.join(t) for n in range(0, 4) for t in itertools.product(SPLIT_ALPHABET, repeat=n)] + SPLIT_EXTRA
+    for t in texts:
+        got = split_observe(util, t)
+        if got is not None and isinstance(got[0], str) and isinstance(got[1], str):
+            rows.append([t, got[0], got[1]])
+    return rows
+
+
 # ---------------------------------------------------------------- decision tables
 def name_of_length(n):
     """a well-formed name of exactly n characters (labels of at most 63 `a`s)"""
@@ -524,6 +575,11 @@ def extract(repo):
              'source_key': source_key(repo, CONTEXTS)}
     facts['tables'] = compute_tables(repo)
     facts['decisions'] = decision_tables(util)
+    try:
+        facts['split_table'] = split_table(util)
+    except Exception as e:      # noqa: BLE001 - degrade: the harness compares the splitter anyway
+        facts['split_table'] = []
+        facts['split_table_error'] = f'{type(e).__name__}: {e}'
     facts['params'] = synthesise(facts['tables'], facts['decisions'])
     try:
         facts['regexes'] = module_regexes(util)
@@ -638,6 +694,11 @@ def render(f):
          '/-- the real `validate_port` on strings: returned integer, or none when it raised -/',
          'def portTable : List (Str × Option Int) := [' + ', '.join(
              f'({lean_str(s)}, {"some " + o[3:] if o.startswith("ok_") else "none"})' for s, o in d['port_table']) + ']',
+         '/-- what `NetAddress.from_string(text)` hands to the constructor as (host, port) - every text over',
+         '    {a 1 . : [ ] % /} up to length 3 and some longer ones, observed through a recording subclass -/',
+         f'def splitRows : Nat := {len(f.get("split_table", []))}',
+         'def splitTable : List (Str × Str × Str) := [' + ', '.join(
+             f'({lean_str(t)}, {lean_str(h)}, {lean_str(q)})' for t, h, q in f.get('split_table', [])) + ']',
          '/-- interpreter: runs of code points `int()` reads as decimal digits (lo, hi, value of lo) -/',
          f'def decimalRuns : List (Nat × Nat × Nat) := {lean_runs(f["decimal_runs"])}',
          '/-- interpreter: `str.isdigit()` is true but `int()` raises ValueError -/',
@@ -671,6 +732,6 @@ if __name__ == '__main__':
     else:
         fx = extract(repo)
         print(json.dumps({k: v for k, v in fx.items()
-                          if k not in ('decimal_runs', 'digit_only', 'tables', 'regexes')}, indent=1))
+                          if k not in ('decimal_runs', 'digit_only', 'tables', 'regexes', 'split_table', 'contexts')}, indent=1))
         for k, v in fx['tables'].items():
             print(k, len(v), 'runs')
